@@ -133,7 +133,7 @@ pub fn parse(img: &[u8]) -> Option<Layout> {
                 None => break,
             };
             let nlen = (u16le(&raw, 64)? as usize).min(64);
-            let units: Vec<u16> = raw[..nlen.saturating_sub(2)].chunks(2).map(|c| u16::from_le_bytes([c[0], c[1]])).collect();
+            let units: Vec<u16> = raw[..nlen.saturating_sub(2)].chunks_exact(2).map(|c| u16::from_le_bytes([c[0], c[1]])).collect();
             let name = String::from_utf16_lossy(&units);
             let size = if ssz == 512 { u32le(&raw, 120)? as u64 } else { u32le(&raw, 120)? as u64 | ((u32le(&raw, 124)? as u64) << 32) };
             l.dir.push(DirEntry { index, offset: o, raw, name, typ: raw[66], start: u32le(&raw, 116)?, size });
